@@ -411,11 +411,31 @@ def run_case(ctx, case):
                         stored.append(Stored(r.uid(), 'sym', None, expected_for('sym', {'alg': alg, 'length': length}, sm, date, version, None),
                                              {'vclass': 'generated', 'alg': alg, 'length': length}, owner, version, date))
                 elif how == 'create_key_pair':
-                    r = srv.send([op_create_key_pair()], (owner, None), version)
+                    # attributes spread over the three templates: each of Name / Object Group / Application Specific
+                    # Information may sit in the common template and in either, both or none of the specific ones (a
+                    # specific template overrides the common one for that attribute, the other key keeps the common value)
+                    def part(tag_):
+                        kw_ = {}
+                        if rng.random() < 0.5:
+                            kw_['names'] = ['kp-%s-%06x' % (tag_, rng.getrandbits(24))]
+                        if rng.random() < 0.4:
+                            kw_['groups'] = ['kpg-%s-%d' % (tag_, rng.randrange(3))]
+                        if rng.random() < 0.3:
+                            kw_['asi'] = [('kpns-%s' % tag_, 'kpd-%d' % rng.randrange(3))]
+                        return rig.common_attrs(**kw_)
+                    c_at, pu_at, pr_at = part('c'), part('u'), part('r')
+                    import copy as _copy
+                    r = srv.send([op_create_key_pair(common=_copy.deepcopy(c_at), pub=_copy.deepcopy(pu_at),
+                                                     priv=_copy.deepcopy(pr_at))], (owner, None), version)
+                    if r.error is not None or not r.ok():
+                        ctx.count('key_pair_with_templates_refused')
                     if r.error is None and r.ok():
-                        for tag, k, m in ((0x42006F, 'pub', M.VERIFY), (0x420066, 'priv', M.SIGN)):
+                        for tag, k, m, own_at in ((0x42006F, 'pub', M.VERIFY, pu_at), (0x420066, 'priv', M.SIGN, pr_at)):
                             ctx.count('objects_stored')
-                            sm = supplied_map([rig.attr(A.CRYPTOGRAPHIC_USAGE_MASK, [m])], version)
+                            ctx.count('key_pair_halves_with_template_attributes')
+                            sm = supplied_map(c_at, version)
+                            sm.update(supplied_map(own_at, version))
+                            sm.update(supplied_map([rig.attr(A.CRYPTOGRAPHIC_USAGE_MASK, [m])], version))
                             stored.append(Stored(T.val(r.payload(), tag), k, None,
                                                  expected_for(k, {'alg': E.CryptographicAlgorithm.RSA, 'length': 1024}, sm, date, version, None),
                                                  {'vclass': 'generated', 'alg': E.CryptographicAlgorithm.RSA, 'length': 1024}, owner, version, date))
